@@ -6,7 +6,7 @@ from core import log
 from props import C04, C06
 
 ASSUMPTIONS = [
-    "`lace watch` is driven for real (inotify works in this sandbox): ~10 re-checks in the quick tier, ~19 in the thorough tier",
+    "`lace watch` is driven for real (inotify works in this sandbox): ~27 re-checks in the quick tier, ~45 in the thorough tier, over two processes",
     "every generated source starts with `halt`, so that `lace run` terminates at once when the source assembles",
 ]
 
@@ -95,25 +95,41 @@ def correspondence(ctx, violations, known_hits):
             if nv <= 8:
                 violations.append({"kind": "verdicts-disagree", "tag": tag, "feature_stack": feat, "source": text,
                                    "check_exit": c, "compile_exit": m, "run_exit": r, "model_exit": me, "check_stderr": err.decode(errors="replace")})
-    watch = drive_watch(ctx, exe, srcs, model, violations)
-    ev += watch["rechecks"]
+    import concurrent.futures
+    with concurrent.futures.ThreadPoolExecutor(2) as pool:          # the two watchers do not share anything
+        futs = [pool.submit(drive_watch, ctx, exe, srcs, model, violations, None, ft) for ft in (0, 1)]
+        watch = [x.result() for x in futs]
+    ev += sum(w["rechecks"] for w in watch)
     ctx.cleanup()
     return {
         "evaluations": ev, "distinct_nontrivial": len(sigs),
         "rule": "CLI exit status of `lace check`, `lace compile`, `lace run` on the same file under each feature setting, vs each other "
                 "and vs the model's verdict: sources whose only error is a too-distant label reference at EVERY statement position x "
                 "every PC-relative instruction (forwards and backwards), sources using each stack mnemonic, the C04 boundary corpus, "
-                "random valid/invalid/mutated programs; one real `lace watch` process driven through a designed sequence of file rewrites (re-checks that fail after recording labels, then sources that reuse or only reference those labels, emission-only errors), each re-check's verdict compared with the model's; "
+                "random valid/invalid/mutated programs; a real `lace watch` process without and one with `-f stack`, each driven through a designed sequence of file rewrites (re-checks that fail after recording labels, then sources that reuse or only reference those labels, emission-only errors, the stack extension's mnemonics as instructions and as labels), each re-check's verdict compared with the model's; "
                 "distinct = distinct (source class, verdict)",
         "histogram": hist, "samples": samples, "mismatches": nv, "watch": watch,
     }
 
 
-def drive_watch(ctx, exe, srcs, model, violations, seq=None):
-    """One real `lace watch` process; rewrite the file, compare each re-check's verdict with the model's verdict
-    for the same contents (= what `lace check` must say).  The sequence starts with re-checks that FAIL after
-    recording labels, followed by sources that reuse / only reference those labels: a re-check must not depend
-    on what an earlier re-check left behind."""
+STACK_SEQ = [
+    "push r1\npop r2\nhalt\n",                                   # the extension's mnemonics: valid with -f stack only
+    "lbl_a push r0\nlbl_b add r0\n",                             # fails after recording labels
+    "call sub\nhalt\nsub push r7\npop r7\nrets\n",
+    "push halt\nbr push\n",                                     # `push` as a label: valid WITHOUT the flag only
+    "far rets\n.blkw x200\nbr far\n",                           # fails only at emission
+    "call sub\nhalt\nsub rets\n",
+    ".fill xD123\nhalt\n",                                      # a data word that looks like an extension instruction
+    "halt\n",
+]
+
+
+def drive_watch(ctx, exe, srcs, model, violations, seq=None, feat=0):
+    """One real `lace watch` process (with `-f stack` when feat=1); rewrite the file, compare each re-check's verdict
+    with the model's verdict for the same contents and the same flag (= what `lace check` must say).  The sequence
+    starts with re-checks that FAIL after recording labels, followed by sources that reuse / only reference those
+    labels: a re-check must not depend on what an earlier re-check left behind.  A re-check that announces itself
+    and then gives no verdict (a panic, or the watcher gone) is a disagreement too."""
     designed = [
         "lbl_a halt\nlbl_b add r0\n",              # fails after recording lbl_a, lbl_b
         "lbl_a halt\nlbl_b br lbl_a\n",            # valid, same labels
@@ -124,44 +140,55 @@ def drive_watch(ctx, exe, srcs, model, violations, seq=None):
         "halt\n",
     ]
     if seq is None:
-        extra = [srcs[i][1] for i in range(len(srcs)) if srcs[i][0] == 0][:200:17][: (3 if ctx.tier == "quick" else 12)]
-        seq = designed + extra
-    verdicts = ctx.run_model([C06.obj_case(0, t) for t in seq], tag="watchobj")
-    d = clicommon.fresh_dir(ctx, "watchdir")
-    logf = os.path.join(ctx.work, "watch.out")
+        extra = [srcs[i][1] for i in range(len(srcs)) if srcs[i][0] == feat][:200:17][: (3 if ctx.tier == "quick" else 12)]
+        seq = (STACK_SEQ + designed[:2] if feat else designed + STACK_SEQ[:4]) + extra
+    verdicts = ctx.run_model([C06.obj_case(feat, t) for t in seq], tag="watchobj%d" % feat)
+    d = clicommon.fresh_dir(ctx, "watchdir%d" % feat)
+    logf = os.path.join(ctx.work, "watch%d.out" % feat)
     f = os.path.join(d, "w.asm")
     open(f, "w").write("halt\n")
     out = open(logf, "wb")
-    p = subprocess.Popen([exe, "watch", f], cwd=d, stdout=out, stderr=subprocess.STDOUT, stdin=subprocess.DEVNULL,
-                         env=dict(os.environ, NO_COLOR="1"))
-    rechecks, bad = 0, 0
+    p = subprocess.Popen([exe, "watch", f] + (["-f", "stack"] if feat else []), cwd=d, stdout=out, stderr=subprocess.STDOUT,
+                         stdin=subprocess.DEVNULL, env=dict(os.environ, NO_COLOR="1"))
+    rechecks, bad, unobserved = 0, 0, 0
     try:
         time.sleep(1.2)
         for k, text in enumerate(seq):
             before = os.path.getsize(logf)
-            with open(f, "w", encoding="utf-8") as fh:       # in place: the watcher follows the inode
-                fh.write(text)
-            got, stable = "", 0
-            for _ in range(40):
-                time.sleep(0.1)
-                now = open(logf, "rb").read()[before:].decode(errors="replace")
-                stable = stable + 1 if (now == got and "Re-checking" in now) else 0
-                got = now
-                if stable >= 5:
+            got = ""
+            for attempt in range(3):
+                with open(f, "w", encoding="utf-8") as fh:       # in place: the watcher follows the inode
+                    fh.write(text)
+                stable = 0
+                for _ in range(40):
+                    time.sleep(0.1)
+                    now = open(logf, "rb").read()[before:].decode(errors="replace")
+                    stable = stable + 1 if (now == got and "Re-checking" in now) else 0
+                    got = now
+                    if stable >= 5:
+                        break
+                if "Re-checking" in got:
                     break
+            me = int(verdicts[k][0].split()[0], 16)
             if "Re-checking" not in got:
+                if p.poll() is not None:          # the watcher itself is gone: it will never give this verdict
+                    bad += 1
+                    violations.append({"kind": "watch-recheck-disagrees", "position_in_sequence": k, "sequence": seq[: k + 1], "flag": feat,
+                                       "source": text, "watch_output": "watch process ended with status %r: %s" % (p.returncode, got[-300:]),
+                                       "model_exit": me})
+                    break
+                unobserved += 1
                 continue
             rechecks += 1
             last = got.split("Re-checking")[-1]
             ok = "no errors found" in last
-            me = int(verdicts[k][0].split()[0], 16)
-            if ok != (me == 0):
+            if ok != (me == 0) or "panicked" in last:
                 bad += 1
-                violations.append({"kind": "watch-recheck-disagrees", "position_in_sequence": k, "sequence": seq[: k + 1],
+                violations.append({"kind": "watch-recheck-disagrees", "position_in_sequence": k, "sequence": seq[: k + 1], "flag": feat,
                                    "source": text, "watch_output": last[-400:], "model_exit": me})
     finally:
         p.kill(); p.wait(); out.close()
-    return {"rechecks": rechecks, "disagreements": bad, "sequence_length": len(seq)}
+    return {"rechecks": rechecks, "disagreements": bad, "sequence_length": len(seq), "flag": feat, "no_event_observed": unobserved}
 
 
 def replay(ctx, payload):
@@ -172,7 +199,7 @@ def replay(ctx, payload):
             log(out[-2000:])
             return 2
         v = []
-        r = drive_watch(ctx, exe, [], [], v, seq=payload["sequence"])
+        r = drive_watch(ctx, exe, [], [], v, seq=payload["sequence"], feat=payload.get("flag", 0))
         log(f"re-driven `lace watch` through the recorded sequence: {r}")
         for x in v:
             log(f"  re-check {x['position_in_sequence']} disagrees: model exit {x['model_exit']}, watch said: {x['watch_output'][-160:]!r}")
